@@ -3,8 +3,9 @@
 //! Seven legs, all bounded-exhaustive (no sampling):
 //!  1. `ffi::is_authorized_json{,_str}` over every C01-style policy set (ordered tuples of
 //!     behaviour atoms) x input shape x id spelling x schema syntax x validateRequest x
-//!     explicit/schema-implicit data x 6 requests, against inputs assembled through the plain
-//!     Rust API (and against the reference authorizer).
+//!     explicit/schema-implicit data x 5 | 7 (request, store) pairs (conforming, violating the
+//!     schema, and a store that violates it), against inputs assembled through the plain Rust
+//!     API (and against the reference authorizer).
 //!  2. `ffi::validate_json` against `Validator::validate`                      (c19_misc.rs)
 //!  3. `ffi::format_json` against `policies_str_to_pretty`                     (c19_misc.rs)
 //!  4. `ffi::check_parse_*_json` against the API parsers                       (c19_misc.rs)
@@ -795,6 +796,11 @@ fn diff_part(a: &Ans, b: &Ans) -> &'static str {
 pub fn auth_cases(tier: Tier) -> Vec<AuthCase> {
     let tuples = atom_tuples(tier.pick(2, 3));
     let nreq = requests().len();
+    // quick: 2 conforming requests, 2 that violate the schema, and the non-conforming store
+    let req_ids: Vec<usize> = match tier {
+        Tier::Quick => vec![0, 1, 3, 4, REQ_BAD_STORE],
+        Tier::Thorough => (0..nreq).collect(),
+    };
     let mut out = Vec::new();
     for (ti, atoms) in tuples.iter().enumerate() {
         for (si, shape) in SHAPES.iter().enumerate() {
@@ -811,7 +817,7 @@ pub fn auth_cases(tier: Tier) -> Vec<AuthCase> {
                     let forms: &[bool] = if schema == SchemaKind::None { &[false] } else { &[false, true] };
                     for &implicit in forms {
                         for vr in VRS {
-                            for req in 0..nreq {
+                            for &req in &req_ids {
                                 out.push(AuthCase { atoms: atoms.clone(), shape: *shape, spelling: sp, schema, vr, implicit, req });
                             }
                         }
@@ -961,7 +967,7 @@ pub fn run(tier: Tier, replay_file: Option<&str>) -> i32 {
         "case = one front-end call (FFI authorization call: tuple of behaviour atoms x shape x spelling x schema syntax x validateRequest x data form x request; validation / format / check-parse / conversion call: one table entry x its settings; cache: one (history, operation) transition; CLI: one command line); non-trivial = the call got past input assembly on the oracle side (authorization reached with >= 1 policy, validation ran, conversion/format succeeded, a cache transition after >= 1 registration, a CLI run that produced a decision or output)",
         json!({
             "tier": tier.name(),
-            "authz": {"max_policies": tier.pick(2, 3), "shapes": 5, "spellings": tier.pick("1 rotating (map shapes)", "3 (map shapes)"), "schema": ["none", "json", "cedar"], "validateRequest": ["absent", "true", "false"], "data_forms": "explicit; schema-implicit when a schema is given", "requests": "6 on the conforming store + 1 on a store that violates the schema"},
+            "authz": {"max_policies": tier.pick(2, 3), "shapes": 5, "spellings": tier.pick("1 rotating (map shapes)", "3 (map shapes)"), "schema": ["none", "json", "cedar"], "validateRequest": ["absent", "true", "false"], "data_forms": "explicit; schema-implicit when a schema is given", "requests": tier.pick("2 conforming + 2 violating the schema + 1 on a store that violates the schema", "3 conforming + 3 violating the schema + 1 on a store that violates the schema")},
             "validate": format!("50 policy sets (40 single policies: valid / ill-typed / impossible / warning, 4 template+link pairs, 4 multi-policy sets, unparseable, empty) x 4 schemas (W in both syntaxes, a second schema, an unparseable one) x {{settings absent, strict, permissive, partial}} x {} policy shapes", tier.pick(2, 3)),
             "format": "51 texts x {defaults, 4 (lineWidth, indentWidth) configs}",
             "check_parse": "46 policy-set documents, 26 schemas, 24 entity documents x {no schema, W cedar, W json, unparseable schema}, 32 contexts x the same 4, 72 scope-variable triples",
